@@ -951,12 +951,15 @@ class Part(object):
         i = np.searchsorted(self._points, tp)
         if self._points[i] == tp:
             self._points = np.delete(self._points, i)
-            if i > 0:
+            if 0 < i < len(self._points):
                 self._points[i - 1].next = self._points[i]
                 self._points[i].prev = self._points[i - 1]
-            if i < len(self._points) - 1:
-                self._points[i].next = self._points[i + 1]
-                self._points[i + 1].prev = self._points[i]
+            elif i > 0:
+                # the last point was removed
+                self._points[i - 1].next = None
+            elif len(self._points) > 0:
+                # the first point was removed
+                self._points[0].prev = None
 
     def get_point(self, t):
         """Return the `TimePoint` object with time `t`, or None if
